@@ -4,6 +4,7 @@ import (
 	"crypto/ecdsa"
 	"fmt"
 	"math/big"
+	"regexp"
 	"sort"
 
 	"github.com/MinterTeam/minter-go-node/coreV2/check"
@@ -59,9 +60,14 @@ type Gen struct {
 	V *View
 	// Detached: Refresh reads the committed height through a separate state object
 	Detached bool
-	Accepted [][]byte // raw bytes of accepted transactions (for replays)
-	Rejected [][]byte
-	Checks   []*IssuedCheck
+	// ColdReads: every read the generator makes goes to a separate state object as well (see cs)
+	ColdReads bool
+	cold      *state.CheckState
+	coldAt    uint64
+	inBlock   map[types.Address]uint64
+	Accepted  [][]byte // raw bytes of accepted transactions (for replays)
+	Rejected  [][]byte
+	Checks    []*IssuedCheck
 	// SigsBy: signature data of accepted single-signature transactions per signer (for the
 	// signature-transplant perturbation)
 	SigsBy map[types.Address][][]byte
@@ -121,6 +127,7 @@ func NewGen(n *Node, weights Profile) *Gen {
 
 // Refresh re-reads the committed state.
 func (g *Gen) Refresh() {
+	g.inBlock = nil
 	if g.Detached {
 		g.V = BuildView(g.N.ExportCommitted())
 		return
@@ -161,15 +168,49 @@ func BuildView(e types.AppState) *View {
 	return v
 }
 
-func (g *Gen) cs() *state.CheckState { return g.N.App.CurrentState() }
+// cs is the state the generator reads to craft transactions: the node's live state, or - with
+// ColdReads - a separate state object at the last committed height, so that the generator's own
+// look-ups (nonces, balances, owners, pools) never load anything into the caches of the node under
+// test. The cold view does not see the earlier transactions of the running block; only the nonce is
+// corrected for them (accepted transactions per sender since the last commit).
+func (g *Gen) cs() *state.CheckState {
+	if g.ColdReads {
+		if g.cold == nil || g.coldAt != g.N.LastHeight {
+			if st, err := g.N.App.GetStateForHeight(g.N.LastHeight); err == nil && st != nil {
+				st.Candidates().LoadCandidates()
+				st.Candidates().LoadStakes()
+				st.Validators().LoadValidators()
+				g.cold, g.coldAt = st, g.N.LastHeight
+			}
+		}
+		if g.cold != nil && g.coldAt == g.N.LastHeight {
+			return g.cold
+		}
+	}
+	return g.N.App.CurrentState()
+}
 
-// Balance reads the live balance.
+// Balance reads the balance (live, or committed with ColdReads).
 func (g *Gen) Balance(a types.Address, coin uint64) *big.Int {
 	return new(big.Int).Set(g.cs().Accounts().GetBalance(a, types.CoinID(coin)))
 }
 
-// Nonce reads the live nonce.
-func (g *Gen) Nonce(a types.Address) uint64 { return g.cs().Accounts().GetNonce(a) }
+// Nonce reads the nonce (live, or committed plus the sender's accepted transactions of this block).
+func (g *Gen) Nonce(a types.Address) uint64 {
+	n := g.cs().Accounts().GetNonce(a)
+	if g.ColdReads && g.cold != nil && g.coldAt == g.N.LastHeight {
+		n += g.inBlock[a]
+	}
+	return n
+}
+
+// NoteAccepted is called by the runner for every accepted transaction.
+func (g *Gen) NoteAccepted(sender types.Address) {
+	if g.inBlock == nil {
+		g.inBlock = map[types.Address]uint64{}
+	}
+	g.inBlock[sender]++
+}
 
 // ---- drawing helpers ----
 
@@ -424,6 +465,13 @@ func (g *Gen) Make(t *rapid.T, kind string) *TxMeta {
 	}
 	if kind == "garbage" {
 		return g.garbage(t)
+	}
+	if kind == "addLiquidity" || kind == "removeLiquidity" {
+		if U(t, "liqTight", 3) == 0 {
+			if m := g.tightLiquidity(t, kind == "addLiquidity"); m != nil {
+				return m
+			}
+		}
 	}
 	s := g.build(t, kind)
 	return g.finish(t, s)
@@ -1436,3 +1484,107 @@ func (w *World) UserByAddr(a types.Address) *User {
 
 // Route draws a swap route of 2..5 coins following existing pools when possible.
 func (g *Gen) Route(t *rapid.T) []types.CoinID { return g.route(t) }
+
+var (
+	reQuoteBurn = regexp.MustCompile(`is equal (\d+) \S+ and (\d+) \S+`)
+	reQuoteMint = regexp.MustCompile(`you need to add (\d+) `)
+)
+
+// tightLiquidity crafts an add- or remove-liquidity transaction whose limits are exactly what the node
+// itself quotes: the transaction is first run in check mode with impossible limits, the amounts in the
+// rejection ("currently liquidity ... is equal A and B" / "you need to add N") become the limits of the
+// transaction that is returned. The gas coin is drawn from the pool's own coins, the base coin and the
+// sender's other coins, so that the fee is often converted through the pool the transaction works on.
+// Returns nil when no pool / holder / quote is available.
+func (g *Gen) tightLiquidity(t *rapid.T, add bool) *TxMeta {
+	if len(g.V.Pools) == 0 {
+		return nil
+	}
+	p := pick(t, "tlPool", g.V.Pools)
+	c0, c1 := p.Coin0, p.Coin1
+	if rapid.Bool().Draw(t, "tlRev") {
+		c0, c1 = c1, c0
+	}
+	lpc := g.cs().Coins().GetCoinBySymbol(tx.LiquidityCoinSymbol(uint32(p.ID)), 0)
+	if lpc == nil {
+		return nil
+	}
+	lpID := uint64(lpc.ID())
+	var u *User
+	for i, off := 0, U(t, "tlUserOff", g.W.NUsers); i < g.W.NUsers; i++ {
+		x := GetUser((i + off) % g.W.NUsers)
+		if add && g.Balance(x.Addr, c0).Sign() > 0 && g.Balance(x.Addr, c1).Sign() > 0 {
+			u = x
+			break
+		}
+		if !add && g.Balance(x.Addr, lpID).Sign() > 0 {
+			u = x
+			break
+		}
+	}
+	if u == nil {
+		return nil
+	}
+	gas := []uint64{c0, c1, c0, c1, 0}[U(t, "tlGas", 5)]
+	if U(t, "tlGasOwn", 6) == 0 {
+		gas = g.gasCoinFor(t, u.Addr)
+	}
+	nonce := g.Nonce(u.Addr) + 1
+	huge := new(big.Int).Exp(big.NewInt(10), big.NewInt(40), nil)
+	var typ tx.TxType
+	var probe, final func(q0, q1 *big.Int) interface{}
+	var re *regexp.Regexp
+	kind := "removeLiquidityTight"
+	if add {
+		kind = "addLiquidityTight"
+		typ = tx.TypeAddLiquidity
+		v0 := amount(t, "tlV0", g.Balance(u.Addr, c0))
+		if v0.Sign() == 0 {
+			v0 = big.NewInt(1)
+		}
+		re = reQuoteMint
+		probe = func(_, _ *big.Int) interface{} {
+			return tx.AddLiquidityDataV260{Coin0: types.CoinID(c0), Coin1: types.CoinID(c1), Volume0: v0, MaximumVolume1: big.NewInt(0)}
+		}
+		final = func(q0, _ *big.Int) interface{} {
+			return tx.AddLiquidityDataV260{Coin0: types.CoinID(c0), Coin1: types.CoinID(c1), Volume0: v0, MaximumVolume1: q0}
+		}
+	} else {
+		typ = tx.TypeRemoveLiquidity
+		liq := amount(t, "tlLiq", g.Balance(u.Addr, lpID))
+		if liq.Sign() == 0 {
+			liq = big.NewInt(1)
+		}
+		re = reQuoteBurn
+		probe = func(_, _ *big.Int) interface{} {
+			return tx.RemoveLiquidityV240{Coin0: types.CoinID(c0), Coin1: types.CoinID(c1), Liquidity: liq, MinimumVolume0: huge, MinimumVolume1: huge}
+		}
+		final = func(q0, q1 *big.Int) interface{} {
+			return tx.RemoveLiquidityV240{Coin0: types.CoinID(c0), Coin1: types.CoinID(c1), Liquidity: liq, MinimumVolume0: q0, MinimumVolume1: q1}
+		}
+	}
+	resp, ok := g.N.CheckTx(SignedTx(g.W, u, nonce, typ, probe(nil, nil), gas))
+	if !ok {
+		return nil
+	}
+	mt := re.FindStringSubmatch(resp.Log)
+	if mt == nil {
+		return nil
+	}
+	q0, _ := new(big.Int).SetString(mt[1], 10)
+	q1 := new(big.Int)
+	if len(mt) > 2 {
+		q1, _ = new(big.Int).SetString(mt[2], 10)
+	}
+	// exactly the quote, or one unit on the accepting side of it
+	if U(t, "tlSlack", 3) == 0 {
+		if add {
+			q0 = new(big.Int).Add(q0, big.NewInt(1))
+		} else if q0.Sign() > 0 && q1.Sign() > 0 {
+			q0, q1 = new(big.Int).Sub(q0, big.NewInt(1)), new(big.Int).Sub(q1, big.NewInt(1))
+		}
+	}
+	data := final(q0, q1)
+	raw := SignedTx(g.W, u, nonce, typ, data, gas)
+	return &TxMeta{Raw: raw, Kind: kind, Type: typ, Data: data, Sender: u.Addr, Payer: u.Addr, GasCoin: types.CoinID(gas), GasPrice: 1, Nonce: nonce, Signers: []int{u.Idx}}
+}
